@@ -17,6 +17,7 @@ import Pysmi.Model.PyStr
 import Pysmi.Model.Imports
 import Pysmi.Model.Pysnmp
 import Pysmi.Model.Cli
+import Pysmi.Model.Time
 import Pysmi.Generated.Cli
 import Pysmi.Generated.Pysnmp
 import Pysmi.Generated.Smiv1
@@ -591,6 +592,7 @@ def opText (j : Json) : Except String Json := do
     let on ← (← j.getObjVal? "on").getBool?
     let present ← (← j.getObjVal? "present").getBool?
     return (match gated on (if present then some s else none) with | some t => cps t | none => Json.null)
+  | "genTime" => return cps (Pysmi.Time.genTime s)
   | _ => throw s!"unknown text fn {fn}"
 end Tx
 
